@@ -129,8 +129,24 @@ class Arr:
 
     def as_mask(self):
         if self.mask_id is None:
-            _MASK_IDS[0] += 1
-            self.mask_id = _MASK_IDS[0]
+            # two boolean arrays whose shapes and element terms (at canonical index symbols) are syntactically the same are
+            # the same mask: `wd[wd > 270] - 360` stored through `wd_wrapped[wd > 270]` evaluates the comparison twice
+            sig = None
+            try:
+                if not any(a.masked for a in self.axes) and self.dtype == "bool":
+                    cs = [Num(z3.Int("__mask_ix%d" % q)) for q in range(self.ndim)]
+                    sig = (tuple(num(a.size).t.sexpr() if hasattr(num(a.size).t, "sexpr") else str(num(a.size).t) for a in self.axes),
+                           sbool(self.at(*cs)).z().sexpr())
+            except Exception:
+                sig = None
+            reg = getattr(engine(), "__dict__", {}).setdefault("mask_registry", {}) if sig is not None else None
+            if reg is not None and sig in reg:
+                self.mask_id = reg[sig]
+            else:
+                _MASK_IDS[0] += 1
+                self.mask_id = _MASK_IDS[0]
+                if reg is not None:
+                    reg[sig] = self.mask_id
         return self
 
     def copy(self):
